@@ -308,7 +308,7 @@ var suspects []any
 
 // suspect records the current case for a solo re-run and stops the shard; it reports true when the caller should give
 // up WITHOUT a verdict (first stage), false when the expiry counts (solo re-run).
-func suspect(r *mon.Rec, rp replay, why string) bool {
+func suspect(r *mon.Rec, rp any, why string) bool {
 	if solo {
 		return false
 	}
@@ -708,10 +708,22 @@ func TestCheck(t *testing.T) {
 	r := mon.New("C14")
 	defer r.Flush()
 	typed = v6util.TypedCodes()
+	var rr realReplay
+	if mon.ReplayCase(&rr) && rr.Real {
+		for k := 0; k < 5; k++ {
+			caseReal(r, rr.Fam, rr.Idx)
+		}
+		return
+	}
 	var rp replay
 	if mon.ReplayCase(&rp) {
 		runCase(r, rp.Fam, rp.Idx)
 		return
+	}
+	for i := 0; i < r.Pick(400, 20000); i++ {
+		if r.Mine(i) && !stopShard {
+			caseReal(r, []string{"server4", "server6"}[i%2], i)
+		}
 	}
 	n := r.Pick(3000, 250000)
 	for i := 0; i < n; i++ {
